@@ -6,16 +6,19 @@ export GOFLAGS=-mod=mod GOPROXY=off GOSUMDB=off GOTOOLCHAIN=local CGO_ENABLED=0
 mkdir -p work evidence harness/bin translator/bin lean/NGF/Generated
 (cd translator && go build -o bin/translator .)
 ./translator/bin/translator -repo /repo -out lean/NGF/Generated || [ $? -eq 3 ]
-cat /repo/go.sum > harness/go.sum
-[ -f harness/extra.sum ] && cat harness/extra.sum >> harness/go.sum
-OVERLAY=""
-[ -f overlay/overlay.json ] && OVERLAY="-overlay $(pwd)/overlay/overlay.json"
-(cd harness && go build -tags verif $OVERLAY -o bin/ngfharness .)
 python3 lean/gen_driver.py
 cd lean
-lake build ngfdriver NGF.AuditLib
+lake build NGF.AuditLib
+for f in NGF/Driver/*.lean; do
+  lake build "ngfdriver_$(basename "${f%.lean}")" || echo "setup: driver $f does not build"
+done
 for f in NGF/Props/*.lean; do
   m=$(echo "${f%.lean}" | tr / .)
   lake build "$m" || echo "setup: $m does not build (the check will report it)"
+done
+cd ..
+# warm the Go build cache for the harness commands (the checks rebuild them against /repo anyway)
+for d in harness/cmd/*/; do
+  ./check "$(basename "$d" | tr a-z A-Z)" --build-only || true
 done
 echo "setup done"
